@@ -146,7 +146,8 @@ class FakeSnowflakeCursor:
             command = self._inline_variables(command)
             if self._conn.nop_regexes and any(re.match(p, command, re.IGNORECASE) for p in self._conn.nop_regexes):
                 transformed = transforms.SUCCESS_NOP
-                self._execute(transformed, params)
+                # the statement isn't run, so there is nothing to bind its (qmark) params to
+                self._execute(transformed, None)
                 return self
 
             expression = parse_one(command, read="snowflake")
